@@ -35,3 +35,26 @@ func oddStackDispatches(c *rig.Ctx) {
 		c.Exact(1)
 	})
 }
+
+// haltBugPrefixed: HALT executed with interrupts disabled and an enabled request pending (the
+// "HALT bug"), followed by a CB-prefixed instruction and then ordinary opcodes. Whatever the
+// repeated byte does, the program contains no undefined opcode: it must not stop the emulator.
+func haltBugPrefixed(c *rig.Ctx) {
+	c.Require("halt_bug_prefixed_runs")
+	c.Part("halt-bug-prefixed", 64, func(i int64, r *rig.Rng) {
+		rom := rig.BlankROM(0, 0, 0)
+		rig.Put(rom, 0x100, 0x00, 0xc3, 0x50, 0x01)
+		cb := []uint8{0x37, 0x00, 0xcb, 0x46, 0x86, 0xc7, 0xfe, 0x7e}[i%8]
+		tail := []uint8{0x00, 0x04, 0x0c, 0x3c, 0x47, 0x80, 0xa7, 0x37}[(i/8)%8]
+		// DI; LD SP; LD A,01; LDH (FF),A; LDH (0F),A; HALT; CB xx; tail; JR self
+		rig.Put(rom, 0x150, 0xf3, 0x31, 0xf0, 0xdf, 0x3e, 0x01, 0xe0, 0xff, 0xe0, 0x0f, 0x76, 0xcb, cb, tail, 0x00, 0x00, 0x18, 0xfe)
+		m := rig.MustNew(rom, rig.Opts{})
+		for k := 0; k < 400; k++ {
+			if !stepGuarded(m) {
+				break
+			}
+		}
+		c.Count("halt_bug_prefixed_runs", 1)
+		c.Exact(1)
+	})
+}
